@@ -438,3 +438,22 @@ func VH_C19_defaults() {
 	vAssert(g.GetMaxRetries() == 5, "plain-func-option-accepted")
 	vCover("defaults")
 }
+
+// the two forms install the same function: whatever an Any-style prep function returns (also a value
+// that happens to be a flyt.Result) reaches post identically in option form and builder form
+func VH_C19_prepValue() {
+	payload := vPayloadE("p")
+	if vNondet[bool]("payloadIsAResult") {
+		vCover("prep-returns-a-result-value")
+		payload = NewResult(vNondet[int]("inner"))
+	}
+	f := func(ctx context.Context, s *SharedStore) (any, error) { return payload, nil }
+	var gotA, gotB any
+	a := NewNode(WithPrepFuncAny(f), WithPostFuncAny(func(ctx context.Context, s *SharedStore, p, e any) (Action, error) { gotA = p; return "x", nil }))
+	b := NewNode().WithPrepFuncAny(f).WithPostFuncAny(func(ctx context.Context, s *SharedStore, p, e any) (Action, error) { gotB = p; return "x", nil })
+	_, errA := Run(vNewCtx(), a, NewSharedStore())
+	_, errB := Run(vNewCtx(), b, NewSharedStore())
+	vAssert(errA == nil && errB == nil, "option-form-vs-builder-form:prep-func")
+	vAssert(vSame(gotA, gotB), "option-form-vs-builder-form:prep-func")
+	vCover("prep-value")
+}
